@@ -106,3 +106,78 @@ K("text.replace_html_char", ["C02", "C08"], TEXT, "check_replace_html_char", "re
   "for every char c: entity if c in {<,>,&,',\"}; empty iff XML 1.0 cannot represent c; else exactly c")
 K("text.canary", ["C02", "C08"], TEXT, "canary_replace_html_char_identity", "replace_html_char",
   "deliberately false: replace_html_char is the identity", canary=True, cover=False)
+
+# ------------------------------------------------------------------------------------------------
+# shared obligations (DESIGN.md section 3)
+# ------------------------------------------------------------------------------------------------
+UTIL = "util.rs"
+POINT = "point.rs"
+CELL = "buffer/cell_buffer/cell.rs"
+GRID = "buffer/cell_buffer/cell/cell_grid.rs"
+
+K("O1.ord", ["C01"], UTIL, "check_ord", "util::ord", "non-NaN => equals partial_cmp, never reaches unreachable!")
+K("O1.opt_ord", ["C01"], UTIL, "check_opt_ord", "util::opt_ord", "None < Some; Some/Some as ord")
+K("O1.point_cmp", ["C01", "C09"], POINT, "check_point_cmp", "Point::cmp / eq / partial_cmp",
+  "row-major (y, x) order on non-NaN points; == is coordinate equality")
+K("util.pad", ["C01"], UTIL, "check_pad", "util::pad", "rounds away from zero to an integer, total on finite input")
+K("C08.ident_classes", ["C08", "C16"], UTIL, "check_ident_char_classes",
+  "parser::alpha_or_underscore / alphanum_or_underscore",
+  "for every char: accepted => not markup-significant/whitespace/=,/ and an XML char; ASCII letters, digits, _ accepted")
+K("G1.cellgrid_point", ["C06", "C11"], GRID, "check_cellgrid_point", "CellGrid::point / unit_x / unit_y / width / height",
+  "= (x/4, y/4) exactly; cell is 1 x 2")
+K("G1.cellgrid_names", ["C06"], GRID, "check_cellgrid_names", "CellGrid::a..y / diagonal_length", "named lattice points; diagonal = sqrt 5")
+K("G2.cell_corners", ["C06", "C11", "C12"], CELL, "check_cell_corners", "Cell::top_left_most / bottom_right_most / width / height",
+  "= (x, 2y), (x+1, 2y+2), lattice")
+K("G3.cell_absolute_position", ["C06"], CELL, "check_cell_absolute_position", "Cell::absolute_position / localize_point",
+  "exact translation by (x,2y); localize_point is its inverse; abs(c+d) = abs(c)+d")
+K("G3.point_add_sub", ["C06"], POINT, "check_point_add_sub", "Point::add / sub", "exact on the lattice, inverse of each other")
+K("G4.cell_adjacent", ["C10"], CELL, "check_cell_adjacent", "Cell::is_adjacent", "Chebyshev distance <= 1, symmetric; a gap of one cell separates")
+K("G4.cell_localize_bounds", ["C06", "C10", "C12"], CELL, "check_cell_localize_bounds",
+  "Cell::localize_cell / Add / Sub / rearrange_bound / is_bounded / cmp", "subtract / inverse / per-axis min-max / inclusive box / row-major order")
+K("G4.cell_neighbours", ["C03"], CELL, "check_cell_neighbours", "Cell::top_left..bottom_right", "the eight neighbour offsets")
+K("G2.cell_named_points", ["C06", "C03"], CELL, "check_cell_named_points", "Cell::a..y / unit", "origin + k/4 per axis")
+K("C11.point_scale", ["C11"], POINT, "check_point_scale", "Point::scale", "both coordinates = IEEE product with s; finite")
+
+LINE = "buffer/fragment_buffer/fragment/line.rs"
+K("L1.line_new", ["C03", "C09"], LINE, "check_line_new", "Line::new / new_noswap / sort_reorder_end_points",
+  "same two end points, ordered start <= end, flag kept")
+K("C11.line_scale", ["C11"], LINE, "check_line_scale", "Line::scale", "4 coordinates = IEEE product with s; is_broken unchanged")
+K("C06.line_absolute_position", ["C06"], LINE, "check_line_absolute_position", "Line::absolute_position / localize",
+  "exact translation by the cell origin; localize is the inverse")
+K("C06.line_predicates", ["C06"], LINE, "check_line_predicates_translation_invariant",
+  "Line::is_horizontal/is_vertical/is_aabb_parallel/is_aabb_perpendicular/octant/slope/has_endpoint",
+  "p(translate(l, d)) = p(l) for lattice lines and cell offsets (quick: < 16 cells, thorough: < 256 cells)", timeout=300, timeout_thorough=1800)
+K("C06.line_slope", ["C06"], LINE, "check_line_slope_translation_invariant", "Line::slope",
+  "numerator and denominator of the slope are exact differences, identical after translation (so slope, angle and heading are)",
+  timeout=300, timeout_thorough=1800)
+K("C06.line_octant", ["C06"], LINE, "check_line_octant_slope_translation_invariant", "Line::octant",
+  "translation invariant on the lattice (quick: < 16 cells, thorough: < 256 cells)", timeout=300, timeout_thorough=1800)
+K("C01.line_heading_total", ["C01", "C14"], LINE, "check_line_heading_total", "Line::line_angle / heading / Direction::threshold_length",
+  "for every f32 returned by angle_rad: line_angle in the closed set, heading never reaches unreachable!",
+  assumes=["Line::angle_rad stubbed by any f32 (f32::atan is a foreign function for Kani)"])
+K("LM.line_merge", ["C03", "C09"], LINE, "check_line_merge", "Line::merge / can_merge",
+  "Some(hull = min start..max end, broken = either) iff is_touching and both is_collinear hold, None otherwise; all finite coordinates",
+  assumes=["Line::is_touching / util::is_collinear replaced by opaque fixed results (their meaning on the lattice: S1, S2)"])
+K("C14.line_merge_circle", ["C14", "C01"], LINE, "check_line_merge_circle", "Line::merge_circle",
+  "never panics; Some(marker line: kind by filled/radius, marked end = centre, far end kept) iff radius <= 0.75 and an end within 0.75*threshold",
+  timeout=600, assumes=["Line::angle_rad stubbed by any f32"])
+K("N4.line_bounds", ["C12"], LINE, "check_line_bounds", "Line::bounds", "per-axis min / max of the end points")
+
+ARC = "buffer/fragment_buffer/fragment/arc.rs"
+CIRCLE = "buffer/fragment_buffer/fragment/circle.rs"
+RECT = "buffer/fragment_buffer/fragment/rect.rs"
+K("C11.arc_scale", ["C11"], ARC, "check_arc_scale", "Arc::scale", "start, end, radius = IEEE product with s; major/sweep/rotation flags unchanged")
+K("C14.arc_ctors", ["C14", "C05"], ARC, "check_arc_ctors", "Arc::new / major / new_with_sweep / sort_reorder_end_points / arcs_to",
+  "end points ordered; sweep flipped exactly when swapped; Arc::new(a,b,r) = new_with_sweep(b,a,r,true)")
+K("C06.arc_absolute_position", ["C06"], ARC, "check_arc_absolute_position", "Arc::absolute_position",
+  "end points translated exactly, radius and flags unchanged, end point order preserved")
+K("C05.arc_touching", ["C05", "C12"], ARC, "check_arc_touching", "Arc::is_touching / has_endpoint / bounds", "equalities of end points; bounds = box of the chord")
+K("C11.circle_scale", ["C11"], CIRCLE, "check_circle_scale", "Circle::scale", "centre and radius = IEEE product with s; is_filled unchanged")
+K("C06.circle_absolute_position", ["C06", "C13"], CIRCLE, "check_circle_absolute_position", "Circle::absolute_position / new",
+  "centre translated exactly; radius, fill unchanged")
+K("N4.circle_bounds", ["C12"], CIRCLE, "check_circle_bounds", "Circle::bounds", "centre -/+ radius")
+K("C11.rect_scale", ["C11"], RECT, "check_rect_scale", "Rect::scale", "corners and Some(radius) = IEEE product with s; None stays None; flags unchanged")
+K("L1.rect_ctors", ["C05"], RECT, "check_rect_ctors", "Rect::new / rounded_new / sort_reorder_end_points / width / height / is_rounded",
+  "same two corners ordered; radius as given; flags kept")
+K("C06.rect_absolute_position", ["C06"], RECT, "check_rect_absolute_position", "Rect::absolute_position", "corners translated exactly; rest unchanged")
+K("N4.rect_bounds", ["C12"], RECT, "check_rect_bounds", "Rect::bounds", "box of the corners")
